@@ -103,9 +103,10 @@ def _functions(mk):
 
 
 def _lets(body):
+    """names bound by `let` (incl. flat tuple patterns) and by `for <pattern> in`, in order of first binding"""
     names = []
-    for m in re.finditer(r"\blet\s+(?:mut\s+)?(\(([^()]*)\)|[a-z_][a-z_0-9]*)", body):
-        for n in re.findall(r"[a-z_][a-z_0-9]*", m.group(2) if m.group(2) is not None else m.group(1)):
+    for m in re.finditer(r"\b(?:let\s+(?:mut\s+)?|for\s+)(\(((?:[^()]|\([^()]*\))*)\)|[a-z_][a-z_0-9]*)(?=\s*[:=;]|\s+in\b)", body):
+        for n in re.findall(r"(?<![A-Za-z_0-9])[a-z_][a-z_0-9]*", m.group(2) if m.group(2) is not None else m.group(1)):
             if n not in KEYWORDS and n not in names:
                 names.append(n)
     return names
@@ -116,7 +117,7 @@ def _closures(body):
     res = []
     for m in re.finditer(r"\|((?:\s*&?(?:mut\s+)?\(?[a-z_][a-z_0-9]*\)?\s*,?)+)\|", body):
         before = body[:m.start()].rstrip()
-        if not (before[-1:] in "(,={;" or re.search(r"\b(?:move|return)$", before)):
+        if not (before[-1:] in "(,={;:" or re.search(r"\b(?:move|return)$", before)):
             continue                      # `a | b | c`
         names = [n for n in re.findall(r"[a-z_][a-z_0-9]*", m.group(1)) if n not in KEYWORDS]
         i = m.end()
@@ -296,7 +297,7 @@ def _restore(rel, text, rec, segments):
                 ok = False            # statements moved around / the old name is still in use / shadows a parameter
                 break
             first = re.search(r"\b%s\b" % re.escape(h), mk[b:e])
-            if not first or not re.search(r"\blet\s+(?:mut\s+)?(?:\([^()]*)?$", mk[b:b + first.start()]):
+            if not first or not re.search(r"\b(?:let|for)\s+[\w\s,(&]*$", mk[b:b + first.start()]):
                 ok = False            # used before it is bound here: it shadows something
                 break
         if not ok:
